@@ -238,6 +238,17 @@ def run(chk):
         for first, second in ((fixed, perf), (perf, fixed), (fixed, fixed), (perf, perf)):
             for body in (row(1e9) + '\n' + row(2e9) + '\n', row(1e9) + '\n' + row(2e9)[:-4] + 'x\n', row(1e9) + '\n'):
                 inputs.append(('vd', 'x.npd', ('#NPD\n#:version 1.0\n#:ports %d\n#:frequencies 2\n#:parameters Sri\n%s\n%s\n%s' % (ports_, first, second, body)).encode()))
+    # `#:parameters` lists of every length from every specifier the format knows (long names next to each other, repeated names, either
+    # case), with rows that have the right number of fields, too few or too many
+    spec_ = ['%s%s' % (t_, f_) for t_ in 'SZYTUHGAB' for f_ in ('ri', 'ma', 'dB')] + ['Zinri', 'Zinma', 'zinri', 'ZINMA', 'PRC', 'PRL', 'SRC', 'SRL', 'IL', 'RL', 'VSWR']
+    for k_ in range(40 if nmut <= 80 else 400):
+        n_ = rng.choice([1, 2, 2, 3, 4, 6, 8, 12])
+        pick = [rng.choice(spec_) for _ in range(n_)] if k_ % 3 else [rng.choice(['Zinri', 'Zinma', 'zinma', 'VSWR']) for _ in range(n_)]
+        ports_ = rng.choice([1, 2, 2, 3])
+        nfld = rng.choice([0, 2, 2 * ports_, 2 * ports_ * ports_ * n_, 2 * ports_ * ports_ * n_ + 1, rng.randint(0, 40)])
+        rows_ = ''.join('%g ' % (1e9 * (q + 1)) + ' '.join('.%d' % (1 + (q + j) % 9) for j in range(nfld)) + '\n' for q in range(2))
+        inputs.append(('vd', 'x.npd', ('#NPD\n#:version 1.0\n#:ports %d\n#:frequencies 2\n#:parameters %s\n#:z0 %s\n%s' % (
+            ports_, rng.choice([',', ', ', ' ,']).join(pick), ' '.join('50 0j' for _ in range(ports_)), rows_)).encode()))
     # a .vnacal whose properties contain an alias to an enclosing node
     for name, data in cal_seeds[:2]:
         if b'properties:' in data:
